@@ -321,13 +321,16 @@ def signature(prop_id, clause, ev, case):
 def run(prop_id, tier, seed, replay=None):
     prof = PROFILES[prop_id]
     rep = vlib.Report(prop_id, tier, seed)
+    replay_case = None
+    if replay:           # read it before the work directory (which may contain it) is recreated
+        with open(replay) as f:
+            replay_case = json.load(f)["detail"]["case"]
     wd = vlib.workdir(prop_id)
     catalog = load_catalog(wd, rep)
     if not replay:
         role_a(prop_id, wd, tier, rep)
     if replay:
-        with open(replay) as f:
-            cases = [json.load(f)["detail"]["case"]]
+        cases = [replay_case]
     else:
         cases = generate(wd, prof["gens"], tier, seed, rep)
     # de-duplicate identical cases
